@@ -761,6 +761,14 @@ func (tr *FnTrans) selectOp(x *ssa.Select) {
 					}
 				}
 			}
+			// ... and offers each of its sends: "offer" event
+			if st.Dir == types.SendOnly {
+				if cl := chanClass(st.Chan); cl != "" && tr.pkg != nil {
+					if _, ok := tr.w.contracts[tr.pkg.Path()+"\x00chan.offer:"+cl]; ok {
+						tr.chanEvent("offer", tr.val(st.Chan), nil, x.Pos(), cl)
+					}
+				}
+			}
 		}
 	}
 	for i, st := range x.States {
